@@ -638,7 +638,8 @@ def rle_to_sparse(rle_data):
 def brle_to_sparse(brle_data, dtype=np.int64):
     ends = np.cumsum(brle_data)
     indices = [np.arange(s, e, dtype=dtype) for s, e in zip(ends[::2], ends[1::2])]
-    return np.concatenate(indices)
+    # start from an empty array so encodings without any run of True work
+    return np.concatenate([np.zeros(0, dtype=dtype)] + indices)
 
 
 def rle_strip(rle_data):
